@@ -1200,6 +1200,24 @@ func (env *Env) call(x *ECall) (EV, error) {
 			return EV{V: Le(App(SInt, "root", r), env.st.Top)}, nil
 		}
 		return EV{}, fmt.Errorf("allocated(ref)")
+	case "f64lit":
+		// f64lit("3/2"): a float constant, written as go/constant prints it exactly
+		if len(x.Args) == 1 {
+			if lit, ok := x.Args[0].(*EStr); ok {
+				return EV{V: ex.D.Const("f64lit:"+lit.V, SF64)}, nil
+			}
+		}
+		return EV{}, fmt.Errorf("f64lit(\"exact value\")")
+	case "feq":
+		// feq(a, b): Go's == on floats (IEEE: -0 equals 0, NaN equals nothing); the contract's own == is identity
+		if len(args) == 2 {
+			a, ok1 := args[0].V.(Term)
+			b, ok2 := args[1].V.(Term)
+			if ok1 && ok2 && a.Sort == SF64 && b.Sort == SF64 {
+				return EV{V: App(SBool, "feq", a, b)}, nil
+			}
+		}
+		return EV{}, fmt.Errorf("feq(a, b) on floats")
 	case "mul64":
 		// mul64(a, b): a*b as a 64-bit signed machine multiplication (wraps on overflow)
 		if len(args) == 2 {
